@@ -694,15 +694,16 @@ class LineWorld:
         k = d['kind']
         name = d['name']
         up = [self.dev[u] for u in d.get('up_init', d.get('up', []))]
+        cyc0 = 0 if d.get('cycle_prop') else d.get('cycle', 0)
         if k == 'source':
             self.nsrc += 1
             gen = HPartGen(name, 1000 * self.nsrc, **d.get('gen', {}))
             b = d.get('budget')
             o = Source(name, gen, d.get('cycle', 0), INF if b is None else b)
         elif k == 'handler':
-            o = PartHandler(name, up, d.get('cycle', 0), d.get('value', 0))
+            o = PartHandler(name, up, cyc0, d.get('value', 0))
         elif k == 'processor':
-            o = HProcessor(name, up, d.get('cycle', 0), d.get('value', 0),
+            o = HProcessor(name, up, cyc0, d.get('value', 0),
                            d.get('resources'), wo={t: tuple(v) for t, v in d.get('wo', {}).items()})
             o.hub = self.hub
             if d.get('slow'):
@@ -717,7 +718,7 @@ class LineWorld:
         elif k == 'batcher':
             o = PartBatcher(name, up, d.get('value', 0), d.get('size'))
         elif k == 'sink':
-            o = Sink(name, up, d.get('cycle', 0), d.get('collect', True))
+            o = Sink(name, up, cyc0, d.get('collect', True))
         elif k == 'group':
             members = [self.dev[m] for m in d['members']]
             g = Group(name, members,
@@ -741,6 +742,9 @@ class LineWorld:
             o = self.make_aux(d)
         else:
             raise HarnessError(f'unknown device kind {k}')
+        if d.get('cycle_prop') and isinstance(o, PartHandler):
+            # the constant cycle time is configured through the public property after construction (the constructor got 0)
+            o.cycle_time = d.get('cycle', 0)
         self.dev[name] = o
         up.clear()                           # the caller re-uses the list it passed as upstream: no effect allowed
         if d.get('blocked'):
